@@ -16,6 +16,7 @@ import (
 	"github.com/privacybydesign/gabi"
 	"github.com/privacybydesign/gabi/big"
 	"github.com/privacybydesign/gabi/gabikeys"
+	"github.com/privacybydesign/gabi/rangeproof"
 )
 
 type aBuilder struct {
@@ -71,6 +72,29 @@ type world struct {
 	rng     *mrand.Rand
 }
 
+// credNonrev: a credential of (key, secret) with a non-revocation witness as attribute 3
+func (w *world) credNonrev(key, secret int) *gabi.Credential {
+	k := fmt.Sprint("nr", key, secret)
+	w.mu.Lock()
+	defer w.mu.Unlock()
+	if c, ok := w.creds[k]; ok {
+		return c
+	}
+	kp := w.kps[key-1]
+	wit, _, err := hx.NewRevocation(kp)
+	if err != nil {
+		hx.Fatal("revocation: %v", err)
+	}
+	ms := []*big.Int{w.secrets[secret], randBits(w.rng, 200), big.NewInt(77), wit.E}
+	sig, err := gabi.SignMessageBlock(kp.SK, kp.PK, ms)
+	if err != nil {
+		hx.Fatal("sign: %v", err)
+	}
+	c := &gabi.Credential{Signature: sig, Pk: kp.PK, Attributes: ms, NonRevocationWitness: wit}
+	w.creds[k] = c
+	return c
+}
+
 func (w *world) cred(key, secret int) *gabi.Credential {
 	k := fmt.Sprint(key, secret)
 	w.mu.Lock()
@@ -101,6 +125,21 @@ func (w *world) session(bl []aBuilder, t aTuple) gabi.ProofList {
 				disclosed = []int{0, 1} // discloses the secret key attribute: no secret-key response
 			}
 			db, err := w.cred(b.Key, b.Secret).CreateDisclosureProofBuilder(disclosed, nil, false)
+			if err != nil {
+				hx.Fatal("disclosure builder: %v", err)
+			}
+			builders = append(builders, db)
+		case "Dn", "Dr":
+			c := *w.credNonrev(b.Key, b.Secret) // own copy: the non-revocation cache is per credential object
+			var rs map[int][]*rangeproof.Statement
+			if b.Kind == "Dr" {
+				st, err := rangeproof.NewStatement(rangeproof.GreaterOrEqual, big.NewInt(10))
+				if err != nil {
+					hx.Fatal("statement: %v", err)
+				}
+				rs = map[int][]*rangeproof.Statement{2: {st}}
+			}
+			db, err := c.CreateDisclosureProofBuilder([]int{1}, rs, b.Kind == "Dn")
 			if err != nil {
 				hx.Fatal("disclosure builder: %v", err)
 			}
@@ -218,6 +257,12 @@ func main() {
 			return
 		}
 		if !ok && c.Complete {
+			for _, pr := range list {
+				if pd, isD := pr.(*gabi.ProofD); isD && hx.D10Ambiguous(pd, 3) {
+					res.Count("discarded-known-finding-D10")
+					return
+				}
+			}
 			res.Violation("honest-list-rejected", "an honest session sharing one secret per label was rejected", hx.M{"case": c})
 			return
 		}
